@@ -14,7 +14,8 @@ META = {
                  "proved per row kind and for the whole elliptic cone block; derivative, convexity and C1 follow) over the hand model "
                  "of mj_constraintUpdate_impl and of mj_makeImpedance (the producer of efc_D / contact.mu) + bitwise differential "
                  "correspondence with the compiled functions + central-difference oracle on the real function's returned cost / force / "
-                 "cone Hessian, with synthetic parameters and with the parameters mj_forward produces on generated scenes",
+                 "cone Hessian, with synthetic parameters and with the parameters mj_forward produces on generated scenes; the island-ordered parameter "
+                 "copies (iefc_*) of multi-island scenes are compared with the gather of the global arrays",
     "text": "Proved over the reals: for equality, friction-loss and one-sided (limit / frictionless / pyramidal) rows the returned force "
             "is minus the derivative of the returned cost at EVERY residual including the kink points, the force is continuous (C1) "
             "and the cost convex; for the elliptic cone block (any number of friction rows, parameters related as mj_makeImpedance "
@@ -467,6 +468,174 @@ def imp_oracle(case, out):
     return bad
 
 
+# ------------------------------------------------------------------------------------------ island-ordered parameter copies
+FRIC_TYPES = (E("mjCNSTR_FRICTION_DOF"), E("mjCNSTR_FRICTION_TENDON"))
+EQ_TYPE = E("mjCNSTR_EQUALITY")
+ISL_FIELDS = ("type", "id", "frictionloss", "D", "R")
+
+
+def island_scene(rng):
+    """3..5 separate kinematic trees (chains of 1..2 hinge / slide joints), most joints with frictionloss and a violated
+    limit, per-joint armature / solimp (so that efc_R differs row by row); sometimes a free sphere resting on a floor.
+    In the global efc order (friction rows of all trees, then limits, then contacts) the rows of the islands interleave.
+    Returns (lines, qpos, nv)."""
+    L = ["option timestep %r" % rng.choice((0.002, 0.005))]
+    h, qpos, nv = 0, [], 0
+    ntree = rng.randint(3, 5)
+    for t in range(ntree):
+        parent = 0
+        for k in range(rng.choice((1, 1, 2))):
+            bh, jh, gh = h + 1, h + 2, h + 3
+            h += 3
+            pos = [2.0 * t, 0.0, 1.5] if k == 0 else [0.0, 0.0, -0.25]
+            slide = rng.random() < 0.3
+            L += ["body %d %d" % (bh, parent), "set %d pos %s" % (bh, " ".join(repr(x) for x in pos)),
+                  "joint %d %d" % (jh, bh), "set %d type %d" % (jh, E("mjJNT_SLIDE" if slide else "mjJNT_HINGE")),
+                  "set %d axis %s" % (jh, rng.choice(("0 1 0", "1 0 0", "0 0 1") if slide else ("0 1 0", "1 0 0"))),
+                  "set %d armature %r" % (jh, rng.choice((0.0, mod_scale(rng, 0.001, 1.0)))),
+                  "geom %d %d" % (gh, bh), "set %d type %d" % (gh, E("mjGEOM_SPHERE")), "set %d size %r" % (gh, rng.uniform(0.03, 0.1)),
+                  "set %d pos 0 0 -0.2" % gh, "set %d density %r" % (gh, rng.uniform(200, 3000))]
+            forced = t < 3 and k == 0     # at least three islands own a friction-loss row and an active limit
+            if forced or rng.random() < 0.7:
+                L.append("set %d frictionloss %r" % (jh, mod_scale(rng, 0.02, 5.0)))
+                if rng.random() < 0.5:
+                    a, b = sorted((rng.uniform(0.3, 0.99), rng.uniform(0.3, 0.99)))
+                    L.append("set %d solimp_friction %r %r %r 0.5 2" % (jh, a, b, rng.uniform(0.0005, 0.05)))
+            q = rng.uniform(-0.5, 0.5)
+            if forced or rng.random() < 0.7:
+                lo = rng.uniform(-0.4, 0.1)
+                hi = lo + rng.uniform(0.1, 0.4)
+                L += ["set %d limited %d" % (jh, E("mjLIMITED_TRUE")), "set %d range %r %r" % (jh, lo, hi)]
+                if rng.random() < 0.5:
+                    a, b = sorted((rng.uniform(0.3, 0.99), rng.uniform(0.3, 0.99)))
+                    L.append("set %d solimp_limit %r %r %r 0.5 2" % (jh, a, b, rng.uniform(0.0005, 0.05)))
+                if forced or rng.random() < 0.8:
+                    q = rng.choice((lo - rng.uniform(0.001, 0.1), hi + rng.uniform(0.001, 0.1)))
+            qpos.append(q)
+            nv += 1
+            parent = bh
+    if rng.random() < 0.5:
+        r = rng.uniform(0.05, 0.15)
+        L += ["geom %d 0" % (h + 1), "set %d type %d" % (h + 1, E("mjGEOM_PLANE")), "set %d size 5 5 0.1" % (h + 1),
+              "body %d 0" % (h + 2), "set %d pos -3 0 %r" % (h + 2, r - 0.003), "freejoint %d %d" % (h + 3, h + 2),
+              "geom %d %d" % (h + 4, h + 2), "set %d type %d" % (h + 4, E("mjGEOM_SPHERE")), "set %d size %r" % (h + 4, r),
+              "set %d condim %d" % (h + 4, rng.choice((1, 3, 4, 6)))]
+        qpos += [-3.0, 0.0, r - 0.003, 1.0, 0.0, 0.0, 0.0]
+        nv += 6
+    return L, qpos, nv
+
+
+def parse_island_out(o):
+    """`isl ...` -> dict or None (no islands)"""
+    p = o.split(" | ")
+    w = p[0].split()
+    if w[0] != "isl" or int(w[1]) == 0 or len(p) != 9:
+        return None
+    r = {"nisland": int(w[1]), "nefc": int(w[2])}
+    for sec, key in zip(p[1:7], ("a", "n", "e", "f", "i2e", "e2i")):
+        t = sec.split()
+        if t[0] != key:
+            return None
+        r[key] = [int(x) for x in t[1:]]
+    for sec, key in zip(p[7:9], ("E", "I")):
+        t = sec.split()
+        if t[0] != key or len(t) - 1 != 5 * r["nefc"]:
+            return None
+        r[key] = [tuple(t[1 + 5 * i:6 + 5 * i]) for i in range(r["nefc"])]
+    return r
+
+
+def island_oracle(r):
+    """the island-ordered copies handed to the per-island mj_constraintUpdate_impl calls are the gather of the global arrays:
+    iefc_X[i] = efc_X[map_iefc2efc[i]] (bitwise) for type / id / frictionloss / D / R; the maps are inverse permutations; every
+    island's block is laid out as the function expects (island_ne equality rows, then island_nf friction rows, then the
+    rest); D*R = 1 row by row (the friction-loss zone boundary R*floss is where D*jar = floss).  Returns [(key, what)]"""
+    bad = []
+    n, i2e, e2i = r["nefc"], r["i2e"], r["e2i"]
+    if len(i2e) != n or len(e2i) != n or sorted(i2e) != list(range(n)) or any(e2i[i2e[i]] != i for i in range(n)):
+        return [("c12:island-map-not-inverse", "map_iefc2efc %r / map_efc2iefc %r are not inverse permutations of the %d rows" % (i2e, e2i, n))]
+    for i in range(n):
+        for fi, fname in enumerate(ISL_FIELDS):
+            if r["I"][i][fi] != r["E"][i2e[i]][fi]:
+                a, b = r["I"][i][fi], r["E"][i2e[i]][fi]
+                if fi >= 2:
+                    a, b = unhex(a), unhex(b)
+                bad.append(("c12:island-copy-not-gather:" + fname,
+                            "iefc_%s[%d] = %r but efc_%s[map_iefc2efc[%d] = %d] = %r: the island solver hands mj_constraintUpdate_impl a "
+                            "parameter that is not the one of this row (for a friction-loss row with a foreign R the zone boundary "
+                            "+-R*floss is off the point where D*jar = floss, cost and force jump there)" % (fname, i, a, fname, i, i2e[i], b)))
+                break
+        ty = int(r["I"][i][0])
+        D, R = unhex(r["I"][i][3]), unhex(r["I"][i][4])
+        if sane(D, R) and abs(D * R - 1.0) > 1e-12:
+            bad.append(("c12:island-DR-not-reciprocal", "island row %d (efc row %d, type %d): iefc_D*iefc_R = %r != 1" % (i, i2e[i], ty, D * R)))
+    if len(r["a"]) != r["nisland"] or sum(r["n"]) != n:
+        bad.append(("c12:island-layout", "island_nefc %r does not sum to nefc %d" % (r["n"], n)))
+        return bad
+    for k in range(r["nisland"]):
+        a, cnt, ne, nf = r["a"][k], r["n"][k], r["e"][k], r["f"][k]
+        for j in range(cnt):
+            ty = int(r["I"][a + j][0])
+            want = "eq" if j < ne else "fric" if j < ne + nf else "other"
+            got = "eq" if ty == EQ_TYPE else "fric" if ty in FRIC_TYPES else "other"
+            if want != got:
+                bad.append(("c12:island-layout", "island %d (rows %d..%d, ne %d, nf %d): local row %d has type %d, expected a row of kind %s"
+                            % (k, a, a + cnt - 1, ne, nf, j, ty, want)))
+                break
+    return bad
+
+
+def run_islands(ctx, impl, nscenes):
+    """S: mj_forward on multi-tree scenes, then the island-ordered parameter copies vs the gather of the global arrays"""
+    rng = ctx.rng
+    script, meta = [], []
+    for mi in range(nscenes):
+        mlines, q, nv = island_scene(rng)
+        script.append("model")
+        script += mlines + ["end"]
+        meta.append(("model", None))
+        for si in range(2):
+            v = [0.0] * nv if si == 0 else [rng.gauss(0, 1) * 0.5 for _ in range(nv)]
+            sol, cone, jac = rng.choice(c11.SOLVERS), rng.choice(("ELLIPTIC", "PYRAMIDAL")), rng.choice(("DENSE", "SPARSE"))
+            info = {"kind": "islands", "model": mi, "state": si, "solver": sol, "cone": cone, "jacobian": jac, "qpos": q, "qvel": v, "model_lines": mlines}
+            for cmd in ("reset", "opt %d %d %d %d %r %r %d" % (E("mjSOL_" + sol), E("mjCONE_" + cone), E("mjJAC_" + jac), 50, 1e-8, rng.choice((1.0, 3.0)), 0),
+                        "set qpos " + " ".join(repr(float(x)) for x in q), "set qvel " + " ".join(repr(float(x)) for x in v)):
+                script.append(cmd)
+                meta.append(("ok", None))
+            script.append("fwdq")
+            meta.append(("fwdq", info))
+            script.append("islandline")
+            meta.append(("islandline", info))
+    stats = {"scenes": nscenes, "forward_calls": 0, "with_islands": 0, "islands_ge_3": 0, "rows_interleaved": 0, "permutation_not_involution": 0,
+             "friction_rows": 0, "rows": 0, "distinct_R_scenes": 0, "model_errors": 0}
+    rc, outs, err = ctx.run_lines([impl], script)
+    if rc != 0 or len(outs) != len(meta):
+        return [("c12:scene-crash", "constraint harness crashed or lost sync on island scenes (rc=%s, %d outputs for %d commands)"
+                 % (rc, len(outs), len(meta)), {"stderr": err[-500:]})], stats
+    fails = []
+    for (kind, info), o in zip(meta, outs):
+        if kind == "model" and not o.startswith("ok"):
+            stats["model_errors"] += 1
+        elif kind == "fwdq" and o.startswith("ok"):
+            stats["forward_calls"] += 1
+        elif kind == "islandline" and o.startswith("isl "):
+            r = parse_island_out(o)
+            if r is None:
+                continue
+            stats["with_islands"] += 1
+            stats["islands_ge_3"] += r["nisland"] >= 3
+            stats["rows_interleaved"] += r["i2e"] != list(range(r["nefc"]))
+            stats["permutation_not_involution"] += r["i2e"] != r["e2i"]
+            stats["friction_rows"] += sum(int(x[0]) in FRIC_TYPES for x in r["E"])
+            stats["rows"] += r["nefc"]
+            stats["distinct_R_scenes"] += len({x[4] for x in r["E"]}) >= 3
+            for key, what in island_oracle(r):
+                fails.append((key, "after mj_forward on a scene with %d constraint islands: %s" % (r["nisland"], what),
+                              {"scene": info, "replay": "feed `model` + scene.model_lines + `end`, `opt`, `set qpos/qvel`, `fwdq`, `islandline` "
+                                                          "to <c11_constraint harness>", "islandline": o[:2000]}))
+    return fails, stats
+
+
 # ------------------------------------------------------------------------------------------ engine scenes
 C12_SCENE_PROFILE = dict(c11.SCENE_PROFILE, nbody=(2, 5), free=0.8, condim=(3, 4, 6, 3, 4, 6, 1), pairs=0.5, equalities=0.4, tendons=0.3)
 GEOM_SIZES = {"sphere": 1, "capsule": 2, "ellipsoid": 3, "cylinder": 2, "box": 3}
@@ -759,7 +928,11 @@ def run(ctx):
                 "interior, on both zone boundaries, at the apex, on the cone axis and at the friction-loss / one-sided kinks; the "
                 "central difference of the RETURNED cost is compared with the RETURNED force (tolerance 1e-6*max(|f|, D*scale) + "
                 "rounding, >= 20x the proven truncation bound D*h/4), the central difference of the returned force with the returned "
-                "cone Hessian (middle zone; 1e-6 of the scaled Hessian magnitude), plus convexity / supporting-hyperplane spot checks")
+                "cone Hessian (middle zone; 1e-6 of the scaled Hessian magnitude), plus convexity / supporting-hyperplane spot checks; "
+                "island scenes (3..5 separate trees with friction-loss joints and violated limits, differing armature / solimp, "
+                "optionally a free sphere on a floor): after mj_forward the island-ordered copies iefc_type / id / frictionloss / D / R "
+                "equal the gather of the global arrays through map_iefc2efc (bitwise), the two maps are inverse permutations, every "
+                "island block is [equality | friction | rest] with the island's ne / nf, and iefc_D*iefc_R = 1 (1e-12)")
     ctx.lean_props(THEOREMS)
     drv = ctx.driver("drv_c11")
     impl = ctx.harness("harness/c/c11_constraint.c", "c11_constraint", deps=["harness/mjbuild.h"])
@@ -836,9 +1009,27 @@ def run(ctx):
         seen_keys[key] = seen_keys.get(key, 0) + 1
         if seen_keys[key] <= 3:
             ctx.oracle_failure(key, what, rep)
+    # ---- island-ordered copies of the parameters (what the island solvers hand to mj_constraintUpdate_impl) vs the gather
+    isf, istats = run_islands(ctx, impl, 150 if thorough else 40)
+    ctx.extra["island_scene_stats"] = istats
+    ctx.extra["island_scene_distribution"] = ("3..5 separate trees of 1..2 hinge/slide joints; first joint of the first three trees always "
+                                              "frictionloss + violated limit, other joints frictionloss 0.7 / limit 0.7 (violated 0.8); armature 0 or "
+                                              "log-uniform [1e-3, 1]; solimp_friction / solimp_limit 0.5; free sphere on a floor 0.5; 2 states; "
+                                              "solver / cone / jacobian uniform")
+    if istats["forward_calls"] and istats["permutation_not_involution"] == 0:
+        ctx.oracle_failure("c12:island-scenes-vacuous", "no island scene produced an efc->iefc permutation that is not an involution", istats)
+    for key, what, rep in isf:
+        nfail += 1
+        seen_keys[key] = seen_keys.get(key, 0) + 1
+        if seen_keys[key] <= 3:
+            ctx.oracle_failure(key, what, rep)
     ctx.extra["oracle_failures"] = nfail
 
     def directed(c):
+        for rnd in range(2):
+            sf3, _ = run_islands(c, impl, 60)
+            if sf3:
+                return {"key": sf3[0][0], "what": sf3[0][1], "replay": sf3[0][2]}
         for rnd in range(4):
             sf2, _ = run_scenes(c, drv, impl, 10, 20, report=False)
             if sf2:
